@@ -11,9 +11,9 @@ use std::hash::Hash;
 pub type T0 = Bvf<u8, 1>;
 pub type T1 = Bvf<u8, 3>;
 pub type T2 = Bvf<u16, 2>;
-pub type T3 = Bvf<u32, 1>;
+pub type T3 = Bvf<u8, 20>;
 pub type T4 = Bvf<u32, 3>;
-pub type T5 = Bvf<u64, 1>;
+pub type T5 = Bvf<u16, 9>;
 pub type T6 = Bvf<u64, 2>;
 pub type T7 = Bvf<u64, 3>;
 pub type T8 = Bvf<u128, 1>;
@@ -29,9 +29,9 @@ pub const TYPE_NAMES: [&str; 13] = [
     "Bvf<u8,1>",
     "Bvf<u8,3>",
     "Bvf<u16,2>",
-    "Bvf<u32,1>",
+    "Bvf<u8,20>",
     "Bvf<u32,3>",
-    "Bvf<u64,1>",
+    "Bvf<u16,9>",
     "Bvf<u64,2>",
     "Bvf<u64,3>",
     "Bvf<u128,1>",
@@ -41,15 +41,15 @@ pub const TYPE_NAMES: [&str; 13] = [
     "Bv",
 ];
 /// word size in bits of each roster type
-pub const WORD_BITS: [usize; 13] = [8, 8, 16, 32, 32, 64, 64, 64, 128, 128, 64, 64, 64];
+pub const WORD_BITS: [usize; 13] = [8, 8, 16, 8, 32, 16, 64, 64, 128, 128, 64, 64, 64];
 /// fixed capacity in bits (None for the growable types)
 pub const FIXED_CAP: [Option<usize>; 13] = [
     Some(8),
     Some(24),
     Some(32),
-    Some(32),
+    Some(160),
     Some(96),
-    Some(64),
+    Some(144),
     Some(128),
     Some(192),
     Some(128),
@@ -67,7 +67,7 @@ pub fn type_class(tid: u8) -> &'static str {
     match tid {
         11 => "Bvd",
         12 => "Bv",
-        0 | 3 | 5 | 8 => "Bvf-1word",
+        0 | 8 => "Bvf-1word",
         _ => "Bvf-multiword",
     }
 }
@@ -639,9 +639,9 @@ macro_rules! impl_fixed {
 impl_fixed!(T0, u8, 0, V0);
 impl_fixed!(T1, u8, 1, V1);
 impl_fixed!(T2, u16, 2, V2);
-impl_fixed!(T3, u32, 3, V3);
+impl_fixed!(T3, u8, 3, V3);
 impl_fixed!(T4, u32, 4, V4);
-impl_fixed!(T5, u64, 5, V5);
+impl_fixed!(T5, u16, 5, V5);
 impl_fixed!(T6, u64, 6, V6);
 impl_fixed!(T7, u64, 7, V7);
 impl_fixed!(T8, u128, 8, V8);
